@@ -81,7 +81,7 @@ def run(tier, seed):
     def viol(sig, what):
         src = sig.split(":")[0].split("@")[0]
         extra = ""
-        dims = {"mc_card": (2, 8, 8), "mc_card_big": (4, 26, 26), "mc_card_mid": (3, 10, 12)}
+        dims = {"mc_card": (2, 8, 8), "mc_card_big": (4, 26, 26), "mc_card_mid": (3, 10, 12), "mc_card_bulk": (1, 8, 10)}
         if src.startswith("mc_card_odd_"):
             dims[src] = tuple(int(x) for x in src[len("mc_card_odd_"):].split("x"))
         if src in dims:
@@ -117,6 +117,9 @@ def run(tier, seed):
                 ("mc_card_mid", 8 * mult if pi == 0 else 8, {"dc": 3, "ch": 10, "cw": 12}),
             ]
             if pi == 0:
+                # very many cards of one customary geometry: whole cards never repeat (a card that is a function of a
+                # 32-bit draw repeats after some 10^5 cards)
+                plan.append(("mc_card_bulk", 12500 * (2 if mult > 1 else 1), {"dc": 1, "ch": 8, "cw": 10}))
                 for (dc, ch, cw) in ODD_CARDS:
                     plan.append(("mc_card_odd_%dx%dx%d" % (dc, ch, cw), 32, {"dc": dc, "ch": ch, "cw": cw}))
             for src, n, kw in plan:
@@ -304,6 +307,12 @@ def run(tier, seed):
             mon.cell(("odd_card_positions_vary", src))
         if L >= 13:
             distinct_check(mon, src, cs, viol)
+    bulk = flat(0, "mc_card_bulk")
+    if bulk:
+        distinct_check(mon, "mc_card_bulk", bulk, viol)
+        mon.cell(("mc_card_bulk", "whole_cards_unique"))
+    else:
+        mon.inconc("no bulk cards observed")
     # ---- exchanges: b via B, a via A, challenges
     groups = collections.defaultdict(list)
     draws = {"B": [], "A": []}
